@@ -163,6 +163,10 @@ def helpers(np):
         except TypeError:
             return True
 
+    def le(a, b, tol=1e-9):
+        # a <= b over the reals; natively within round-off (assumption A2)
+        return a <= b + tol * (1 + abs(a) + abs(b))
+
     def approx(a, b, tol=1e-9):
         a, b = complex(a), complex(b)
         return abs(a - b) <= tol * (1 + abs(a) + abs(b))
@@ -171,7 +175,8 @@ def helpers(np):
 
     def is_vector(x):
         return hasattr(x, '_data') and hasattr(x, 'asarray')
-    return dict(exceeds=exceeds, below=below, INF_BOUND=1.0e30, same_fp=same_fp, same_fp_bool=same_fp_bool, approx=approx, is_scalar=is_scalar, is_vector=is_vector, is_view=is_view, iff=iff, is_none=is_none, same_object=same_object, is_nan=is_nan, is_inf=is_inf,
+    import math as _math
+    return dict(le=le, floor_=_math.floor, approx_h=None, exceeds=exceeds, below=below, INF_BOUND=1.0e30, same_fp=same_fp, same_fp_bool=same_fp_bool, approx=approx, is_scalar=is_scalar, is_vector=is_vector, is_view=is_view, iff=iff, is_none=is_none, same_object=same_object, is_nan=is_nan, is_inf=is_inf,
                 fp_finite=fp_finite, Sum=Sum, arr_eq=arr_eq, np=np)
 
 
